@@ -56,9 +56,15 @@ AnchorTrees == {[anchor |-> "tag"] @@ Leaf(1), [properties |-> [a |-> [anchor |-
                 [allOf |-> <<[dynamicAnchor |-> "n"] @@ Leaf(1), [anchor |-> "m"] @@ Leaf(2)>>],
                 [defs |-> [x |-> [anchor |-> "tag", not |-> [dynamicAnchor |-> "tag"] @@ Leaf(3)]]],
                 [items |-> [anchor |-> "a", items |-> [anchor |-> "b"] @@ Leaf(1)]]}
+\* LARGE trees (81, 144 and 273 Schema objects: whatever a clone allocates in bulk - 64, 128, 256 - is outgrown while
+\* the walk is in the middle of a node), two and three levels, under list- and map-valued keywords
+BigKeys == {"a", "b", "c", "d", "e", "f", "g", "h", "i", "j"}
+Big(n, ks) == [allOf |-> [i \in 1..n |-> [properties |-> [k \in ks |-> Leaf(i)]]]]
+BigTrees == {Big(10, {"a", "b", "c", "d", "e", "f", "g"}), Big(13, BigKeys),
+             [defs |-> [k \in {"a", "b", "c", "d"} |-> [anyOf |-> [i \in 1..4 |-> [properties |-> [x \in BigKeys |-> [not |-> Leaf(i)]] @@ [y |-> Leaf(i + 1)]]]]]]}
 D3 == {OneUnder(k1, OneUnder(k2, OneUnder(k3, Leaf(1)))) : k1 \in {"items", "allOf", "properties", "not"}, k2 \in AllKW, k3 \in {"if", "oneOf", "depSchemas", "defs"}}
 D3all == {OneUnder(k1, OneUnder(k2, OneUnder(k3, Leaf(1)))) : k1 \in AllKW, k2 \in AllKW, k3 \in {"if", "oneOf", "depSchemas", "defs", "items", "patternProperties"}}
-Trees == IF K >= 3 THEN UNION {D1, D2, Wide, Empties, TrueKids, BushyTrees, AnchorTrees, D3, D3all} ELSE IF K >= 2 THEN UNION {D1, D2, Wide, Empties, TrueKids, BushyTrees, AnchorTrees, D3} ELSE UNION {D1, D2, Wide, Empties, TrueKids, BushyTrees, AnchorTrees}
+Trees == IF K >= 3 THEN UNION {D1, D2, Wide, Empties, TrueKids, BushyTrees, AnchorTrees, BigTrees, D3, D3all} ELSE IF K >= 2 THEN UNION {D1, D2, Wide, Empties, TrueKids, BushyTrees, AnchorTrees, BigTrees, D3} ELSE UNION {D1, D2, Wide, Empties, TrueKids, BushyTrees, AnchorTrees, BigTrees}
 
 Init == cs \in Trees /\ phase = "new"
 Next == phase = "new" /\ phase' = "done" /\ cs' = cs
